@@ -5,10 +5,12 @@
 package main
 
 import (
+	"bytes"
 	"flag"
 	"fmt"
 	"go/ast"
 	"go/parser"
+	"go/printer"
 	"go/token"
 	"os"
 	"path/filepath"
@@ -248,6 +250,97 @@ func localNames(fd *ast.FuncDecl) map[string]bool {
 }
 
 type fact struct{ a, b, c, d string }
+
+// src prints a node exactly as gofmt would (one line).
+func src(fset *token.FileSet, n ast.Node) string {
+	var b bytes.Buffer
+	printer.Fprint(&b, fset, n)
+	return strings.Join(strings.Fields(b.String()), " ")
+}
+
+// codeFacts records the source text of the few expressions the window property (C19) rests on.
+func codeFacts(pkgs []*pkgInfo) []fact {
+	var out []fact
+	for _, p := range pkgs {
+		if !strings.HasSuffix(p.dir, "internal/deflate") {
+			continue
+		}
+		var fnames []string
+		for n := range p.files {
+			fnames = append(fnames, n)
+		}
+		sort.Strings(fnames)
+		for _, fn := range fnames {
+			f := p.files[fn]
+			for _, d := range f.Decls {
+				fd, ok := d.(*ast.FuncDecl)
+				if !ok || fd.Body == nil {
+					continue
+				}
+				name := fd.Name.Name
+				if fd.Recv != nil && len(fd.Recv.List) > 0 {
+					name = exprStr(fd.Recv.List[0].Type) + "." + name
+				}
+				switch {
+				case name == "lz77":
+					ast.Inspect(fd.Body, func(n ast.Node) bool {
+						switch x := n.(type) {
+						case *ast.AssignStmt:
+							if len(x.Lhs) == 1 && exprStr(x.Lhs[0]) == "dist" && x.Tok == token.DEFINE {
+								out = append(out, fact{"lz77", "dist", src(p.fset, x.Rhs[0]), ""})
+							}
+							if len(x.Lhs) == 1 && exprStr(x.Lhs[0]) == "prev" {
+								out = append(out, fact{"lz77", "prev", src(p.fset, x.Rhs[0]), ""})
+							}
+						case *ast.IfStmt:
+							c := src(p.fset, x.Cond)
+							if strings.Contains(c, "historySize") {
+								out = append(out, fact{"lz77", "windowTest", c, ""})
+							}
+							if strings.Contains(c, "minMatch") {
+								out = append(out, fact{"lz77", "minMatchTest", c, ""})
+							}
+						}
+						return true
+					})
+				case name == "getDistSymbol":
+					out = append(out, fact{"getDistSymbol", "body", src(p.fset, fd.Body), ""})
+				case strings.HasSuffix(name, "context.generate") && !strings.Contains(fn, "other"):
+					ast.Inspect(fd.Body, func(n ast.Node) bool {
+						if ce, ok := n.(*ast.CallExpr); ok {
+							fnn := exprStr(ce.Fun)
+							if strings.HasPrefix(fnn, "lz77") {
+								args := ""
+								if fnn == "lz77" && len(ce.Args) > 3 {
+									args = src(p.fset, ce.Args[3])
+								}
+								out = append(out, fact{name, "calls", fnn, args})
+							}
+						}
+						if is, ok := n.(*ast.IfStmt); ok {
+							c := src(p.fset, is.Cond)
+							if strings.Contains(c, "windowLevel") {
+								out = append(out, fact{name, "windowSwitch", c, ""})
+							}
+						}
+						return true
+					})
+				case name == "NewWriterwWith4KWindow" || name == "NewWriter" || name == "buildLZ77":
+					ast.Inspect(fd.Body, func(n ast.Node) bool {
+						if ce, ok := n.(*ast.CallExpr); ok && exprStr(ce.Fun) == "NewDynCompressor" && len(ce.Args) == 3 {
+							out = append(out, fact{name, "window", src(p.fset, ce.Args[2]), ""})
+						}
+						if cl, ok := n.(*ast.CompositeLit); ok && name == "buildLZ77" {
+							out = append(out, fact{name, "ctx", src(p.fset, cl), ""})
+						}
+						return true
+					})
+				}
+			}
+		}
+	}
+	return out
+}
 
 func main() {
 	flag.Parse()
@@ -514,6 +607,7 @@ func main() {
 	b.WriteString("]\n\n")
 	emit("asmDisps", "String × String × String", asmDisps, 3)
 	emit("layouts", "String × String × String × String", layouts, 4)
+	emit("codeFacts", "String × String × String × String", codeFacts(pkgs), 4)
 	// selected numeric constants
 	want := map[string]bool{}
 	for _, k := range []string{"compress/flate/internal/deflate.maxMatchLength", "compress/flate/internal/deflate.minMatchLength", "compress/flate/internal/deflate.minMatch", "compress/flate/internal/deflate.tokensCap", "compress/flate/internal/deflate.maxTokenSize", "compress/flate/internal/deflate.InvalidDist", "compress/flate/internal/deflate.safeLZ77Boundary",
